@@ -540,12 +540,9 @@ def run_models(execs):
 
 # --------------------------------------------------------------------------- comparing
 def parse_table(stdout, ncols):
-    rows = []
-    for ln in stdout.splitlines():
-        if ln == '':
-            continue
-        rows.append([c.rstrip(' ') for c in ln.split('\t')])
-    return rows
+    # one print() per row; a row may be blank (e.g. only the NOTE column and every note is '')
+    lines = stdout.split('\n')[:-1] if stdout.endswith('\n') else stdout.split('\n')
+    return [[c.rstrip(' ') for c in ln.split('\t')] for ln in lines] if stdout else []
 
 
 def render_cell(ex, cell):
@@ -587,7 +584,7 @@ def compare_listing(ex, ob, model_rows, rep, labels, default, unreadable_tail):
         rows = rows[1:]
         if head != [labels[c] for c in dcols]:
             return f'{what}: header {head} for columns {dcols}'
-    if not model_rows and ob['stdout'].strip():
+    if not model_rows and ob['stdout']:
         return f'{what}: model lists nothing, implementation printed {len(rows)} row(s)'
     expected = [[render_cell(ex, c) for c in cells] for _, cells in model_rows]
     if len(rows) != len(expected):
